@@ -188,8 +188,22 @@ def check(repo, rep, tier):
     r_feature_methods(repo, rep, 'R8.7')
     from .c05 import r_atoms
     r_atoms(repo.module('depccg/cat.py'), rep, 'R8.7')      # the categories of a line are read by Category.parse: an atom keeps the feature that is written
+    # which child a writer is at is decided by position, never by comparing child objects: the same Tree object may stand on
+    # both sides of a node (a shared sub-tree), and `child is node.left_child` is then true for the right one as well
+    for rel_ in (AUTO, 'depccg/printer/conll.py'):
+        m_ = repo.module(rel_)
+        for c_ in ast.walk(m_.tree):
+            if isinstance(c_, ast.Compare) and len(c_.ops) == 1 and isinstance(c_.ops[0], (ast.Is, ast.IsNot, ast.Eq, ast.NotEq)) \
+                    and any(isinstance(x_, ast.Attribute) and x_.attr in ('left_child', 'right_child', 'child') for x_ in [c_.left, c_.comparators[0]]) \
+                    and not any(isinstance(x_, ast.Constant) for x_ in [c_.left, c_.comparators[0]]):
+                rep.check(False, 'R8.4', '%s:%s' % (rel_, c_.lineno), '%s:child-by-identity' % rel_, '',
+                          'the position of a child is decided by `%s`: when one Tree object is both children of a node the second occurrence is taken for the first, and the fragments written for it are those of the left child' % src(c_)[:60])
     from .c15 import r_extension_dispatch_text
     r_extension_dispatch_text(repo, rep, 'R8.7', 'read_auto')
+    from .c20 import r_ptb_lines
+    r_ptb_lines(repo, rep, 'R8.5', reader='read_auto', what='AUTO')
+    from .c12 import r_same_result
+    r_same_result(repo, rep, 'R8.3')         # the head flag a node gets is the one read from its own record (not a value kept on the reader between nodes)
     am = repo.module(AUTO)
     p, (lst, leaf), (nst, node) = writer_templates(am, 'auto_of')
     ltoks = codec.fstr_tokens(leaf)
